@@ -430,6 +430,12 @@ def tname(v):
     return type(v).__name__
 
 
+def category(v):
+    """Coarse value class used in violation signatures (a grouping, not part of the oracle)."""
+    t = type(v)
+    return t.__name__ if t in (bytes, str, int) else "other-object"
+
+
 # ---------------------------------------------------------------------------
 # configurations
 
@@ -697,9 +703,8 @@ def _worker(job, chk):
             if key[-1] in ("compressed", "rejected", "not-attempted"):
                 chk.count("compression_" + key[-1].replace("-", "_"))
             for kind, extra, text in problems:
-                top = tname(value)
-                chk.violation(raw_sig(kind, subj, top if kind != "roundtrip-type" else "", extra), text,
-                              {"config": list(subj.cfg), "spec": spec})
+                cat = "" if kind in ("roundtrip-type", "roundtrip-value") else category(value)
+                chk.violation(raw_sig(kind, subj, cat, extra), text, {"config": list(subj.cfg), "spec": spec})
         # serialize must not have modified the caller's value
         if not same(value, build(spec)):
             chk.violation("input-mutated|" + tname(value), f"serializing {show_spec(spec)} modified the value",
